@@ -1599,7 +1599,7 @@ def r5_typestate(ctx):
         obj = symname(r) if _good(r) else None
         ok = obj is not None and ev.heap.get(obj) == "namespace" and all(_eq(ev.env.get(f"{obj}.{k}"), w) for k, w in zip("dva", want))
         _check(ctx, ok, f"finalize (get_force {get_force}): the solution holds the published d, v, a", fn,
-                  None if ok else {"returned": repr(r), "members": {k: repr(v) for k, v in ev.env.items() if obj and k.startswith(obj + ".")}})
+                  None if ok else {"returned": repr(r), "members": {k: repr(v) for k, v in ev.env.items() if obj and k in [f"{obj}.{x}" for x in "dva"]}})
         if get_force:
             nm = None
             for k, v in ev.env.items():
